@@ -619,8 +619,10 @@ private:
       using row_buffer_helper_t = Buffer;
       using it_t = typename row_buffer_helper_t::iterator_t;
 
-      std::size_t size_to_allocate = buffer_size< typename View::value_type >( dst_view.width()
-                                                                             , is_view_bit_aligned_t() );
+      // the buffer receives whole scanlines of the file: its size in elements has to be computed with the size
+      // of its own elements, not with the destination's pixel type (a gray8 file read into rgb8 got a third)
+      std::size_t size_to_allocate = buffer_size< typename row_buffer_helper_t::element_t >( dst_view.width()
+                                                                                         , is_view_bit_aligned_t() );
       row_buffer_helper_t row_buffer_helper( size_to_allocate, true );
 
       it_t begin = row_buffer_helper.begin();
